@@ -31,23 +31,24 @@ func humanizeInt[T IntType](v T) string {
 	}
 
 	negative := v < 0
+	u := uint64(v)
 	if negative {
-		v = -v
+		u = -u // magnitude; also correct for the minimum value, which has no positive counterpart in T
 	}
 
 	ci := 0
 	idx := len(buf) - 1
-	for v > 0 {
+	for u > 0 {
 		if ci == 3 {
 			buf[idx] = baseSeparator
 			ci = 0
 			idx--
 		}
 
-		buf[idx] = byte('0' + (v % 10))
+		buf[idx] = byte('0' + (u % 10))
 		idx--
 		ci++
-		v /= 10
+		u /= 10
 	}
 
 	if negative {
